@@ -33,6 +33,8 @@ package y
 //@   ensures[then-version] lexcmp(uk(key1), uk(key2)) == 0 ==> result == lexcmp(key1[len(key1)-8:], key2[len(key2)-8:])
 //@   ensures[version-desc] lexcmp(uk(key1), uk(key2)) == 0 ==> (result < 0 <==> ver(key1) > ver(key2)) && (result == 0 <==> ver(key1) == ver(key2))
 //@   ensures[sign] result == -1 || result == 0 || result == 1
+//@   ensures[keycmp] result == keycmp(key1, key2)
+//@   reveal keycmp(key1, key2)
 
 //@ func SameKey
 //@   props C20
@@ -158,3 +160,7 @@ package y
 //@   ensures[content] bytes(result) == old(bytes(src))
 //@   ensures[non-nil] result != nil
 //@   assigns a[0:cap(a)]
+
+// keycmp: the order of internal keys as CompareKeys computes it (user key ascending, then
+// version descending). Proved equal to CompareKeys' result; used by the range contracts.
+//@ opaque spec keycmp(a []byte, b []byte) int = lexcmp(uk(a), uk(b)) != 0 ? lexcmp(uk(a), uk(b)) : lexcmp(a[len(a)-8:], b[len(b)-8:])
